@@ -130,6 +130,7 @@ example : HistOK init (W2.take 4) ∧ ¬ NoneCancelled (run (W2.take 4)) 1 1 := 
 * (H2) `commitUpdate b u`: no job of `u` is cancelled (`NoneCancelled`), and the rows in the job-id range of `u` belong to
   `u` or to a committed update (`RangeOwned`; the server does not validate client job ids, property C08);
 * (H4) `insertGroups`: every group created has the root among its ancestors, i.e. its parent existed (`GroupsRooted`).
+`Op.WF` (terminal state in completion reports) is NOT needed: the trigger accounts for any new state.
 `HistOK s ops` says `OpOK` holds at every step of the history `ops` started in `s`. -/
 
 /-- every history satisfying the hypotheses at each step: all live tracked counters equal their recomputation -/
@@ -139,6 +140,12 @@ theorem counters_inv_partial (ops : List Op) (hok : HistOK init ops) : CountersI
 theorem counters_inv_partial_step (ops : List Op) (hok : HistOK init ops) (op : Op) (hop : OpOK (run ops) op) :
     CountersInv (step (run ops) op).1 :=
   (inv_step (run ops) op hop (groupsSelf_of_shape (shape_run init ops) groupsSelf_init) (inv_run ops hok)).2
+
+/-- the same per transaction, from any state that satisfies the structural invariants `Struct` and `GroupsSelf` (not
+only reachable ones): `Struct ∧ CountersInv` is inductive under `OpOK` -/
+theorem counters_inv_step (s : State) (op : Op) (hop : OpOK s op) (hself : GroupsSelf s) (hs : Struct s)
+    (h : CountersInv s) : Struct (step s op).1 ∧ CountersInv (step s op).1 :=
+  inv_step s op hop hself ⟨hs, h⟩
 
 /-- the structural invariants used, for every state reached by such a history: ancestor lists are duplicate-free,
 closed (an ancestor's ancestors are ancestors), linearly ordered and end in the root; every job's group and batch
@@ -152,6 +159,38 @@ theorem ready_jobs_partial (ops : List Op) (hok : HistOK init ops) (u ic : Nat) 
         j.state = .Ready ∧ jobCancelled (run ops) j = false then 1 else 0) (run ops).jobs := by
   rw [counters_inv_partial ops hok (.uReady u ic) trivial]
   exact sumBy_congr _ _ _ (fun j _ => weight_uReady _ u ic j)
+
+/-! ## the other hypotheses are needed too (in the model)
+
+`OpOK` also excludes three paths that the real service does not take or does not validate; on each of them the model
+(which is more permissive than the driver / trusts client-supplied ids like the server does) breaks the equality. -/
+
+/-- (H0) the driver schedules a Ready job of an update that is not committed: `n_ready_jobs` becomes −1 -/
+def W3 : List Op :=
+  [.createBatch 7 1 100, .createUpdate 1 200 1 0 7, .insertJobs 1 1 7 [⟨1, [], [], some 0, 0, false, 1000, 0⟩],
+   .newInstance 5 8000 true, .activate 5, .schedule 1 1 11 5]
+
+/-- (H2', `RangeOwned`) a job of the open update 3 was submitted with relative id 0, which lands in the id range of
+update 2; committing update 2 recomputes it to Ready and the trigger counts it -/
+def W4 : List Op :=
+  [.createBatch 7 1 100, .createUpdate 1 200 1 0 7, .insertJobs 1 1 7 [⟨1, [], [], some 0, 0, false, 1000, 0⟩],
+   .commitUpdate 1 1, .createUpdate 1 201 2 0 7, .createUpdate 1 202 1 0 7,
+   .insertJobs 1 2 7 [⟨1, [], [], some 0, 0, false, 100, 0⟩, ⟨3, [], [], some 0, 0, false, 100, 0⟩],
+   .insertJobs 1 3 7 [⟨0, [], [], some 0, 0, false, 10, 0⟩], .commitUpdate 1 2]
+
+/-- (H4, `GroupsRooted`) a group whose named parent does not exist gets no ancestor rows: its jobs are not staged at
+the root, so the commit does not move them into `n_ready_jobs` -/
+def W5 : List Op :=
+  [.createBatch 7 1 100, .createUpdate 1 200 0 2 7, .insertGroups 1 1 7 [⟨1, some 0, 0⟩, ⟨5, some 3, 0⟩],
+   .insertJobs 1 1 7 [⟨1, [], [], some 5, 0, false, 1000, 0⟩], .commitUpdate 1 1]
+
+example : get (run W3).ctr (.uReady 7 0) = -1 ∧ sumBy (w (run W3) (.uReady 7 0)) (run W3).jobs = 0 := by decide +kernel
+example : get (run W4).ctr (.uReady 7 0) = 3 ∧ sumBy (w (run W4) (.uReady 7 0)) (run W4).jobs = 2 := by decide +kernel
+example : get (run W5).ctr (.uReady 7 0) = 0 ∧ sumBy (w (run W5) (.uReady 7 0)) (run W5).jobs = 1 := by decide +kernel
+example : HistOK init (W3.take 5) ∧ ¬ TargetCommitted (run (W3.take 5)) 1 1 := by decide +kernel
+example : HistOK init (W4.take 8) ∧ ¬ RangeOwned (run (W4.take 8)) 1 2 := by decide +kernel
+example : HistOK init (W5.take 2) ∧ ¬ OpOK (run (W5.take 2)) (.insertGroups 1 1 7 [⟨1, some 0, 0⟩, ⟨5, some 3, 0⟩]) := by
+  decide +kernel
 
 /-! ## non-vacuity -/
 
